@@ -34,12 +34,28 @@ func (l *simLoader) Load(name string) (string, error) {
 
 func (l *simLoader) Exists(name string) bool { _, ok := l.src[name]; return ok }
 
+// simTSLoader is the same loader with modification times (all templates share one, bumped by the
+// harness). Only Load is a fallible invocation: a failing stat followed by a successful read is a
+// loader that recovered, not a failed render.
+type simTSLoader struct {
+	simLoader
+	mt int64
+}
+
+func (l *simTSLoader) GetModifiedTime(name string) (int64, error) {
+	if _, ok := l.src[name]; !ok {
+		return 0, fmt.Errorf("%w: %s", twig.ErrTemplateNotFound, name)
+	}
+	return l.mt, nil
+}
+
 type c17Sc struct {
 	Prog    *Program `json:"prog"`
 	Pool    int      `json:"pool"`
 	Unknown []string `json:"unknown_variants"` // main-template sources with one name replaced by an unknown one
 	Debug   bool     `json:"debug"`
 	MaxK    int      `json:"max_k,omitempty"` // cap on enumerated fault positions (default 64)
+	Warm    bool     `json:"warm,omitempty"` // the engine has rendered the program before; auto-reload is on and every template has changed on "disk" since (timestamp-aware loader), so the observed render re-reads what it had cached
 	Via     string   `json:"via,omitempty"`   // "" = Engine.Render, "renderto" = Engine.RenderTo, "load" = Load + Template.Render, "compiled" = the main template reaches the engine as compiled bytes
 }
 
@@ -58,6 +74,7 @@ func (propC17) Assumptions() []string {
 		"loader faults are generic I/O-style errors, deliberately not ErrTemplateNotFound, so `ignore missing` is not an excuse",
 		"exempt exactly: undefined variables/attributes and `ignore missing` with a not-found error",
 		"programs are sampled; for each program every single-invocation fault position up to 64 is enumerated",
+		"of a timestamp-aware loader only Load is failed, not GetModifiedTime (a failing stat followed by a successful read is a loader that recovered)",
 	}
 }
 func (propC17) MainFaults() []string {
@@ -82,6 +99,7 @@ func (propC17) Gen(seed uint64, ex map[string]bool) interface{} {
 		f.Macros = false
 	}
 	sc := &c17Sc{Prog: genProgram(r, f), Pool: pick(r, []int{simrt.PoolLIFO, simrt.PoolFresh, simrt.PoolRandom}), Debug: r.P(15), Via: pick(r, []string{"", "", "", "renderto", "load", "compiled"})}
+	sc.Warm = r.P(20)
 	if ex["tier:thorough"] {
 		sc.MaxK = 256
 	}
@@ -156,7 +174,14 @@ func c17Engine(sc *c17Sc, sp *Spies, mainSrc string) *twig.Engine {
 	if mainSrc != "" {
 		src[sc.Prog.Main] = mainSrc
 	}
-	e.RegisterLoader(&simLoader{src: src, sp: sp})
+	var tsl *simTSLoader
+	if sc.Warm {
+		tsl = &simTSLoader{simLoader: simLoader{src: src, sp: sp}, mt: 1_700_000_100}
+		e.RegisterLoader(tsl)
+		e.SetAutoReload(true)
+	} else {
+		e.RegisterLoader(&simLoader{src: src, sp: sp})
+	}
 	installSpies(e, &spyHub{per: []*Spies{sp}})
 	// every built-in filter, function and test is a fallible, counted invocation too
 	twig.VerifWrapCallbacks(e,
@@ -202,6 +227,14 @@ func c17Engine(sc *c17Sc, sp *Spies, mainSrc string) *twig.Engine {
 		if data, err := twig.SerializeCompiledTemplate(&twig.CompiledTemplate{Name: sc.Prog.Main, Source: src[sc.Prog.Main], LastModified: 1_700_000_000, CompileTime: 1_700_000_000}); err == nil {
 			e.LoadFromCompiledData(data)
 		}
+	}
+	if tsl != nil {
+		// warm-up render without faults, then every template "changes on disk"
+		fa := sp.FailAt
+		sp.FailAt = 0
+		observe(sp, func() (string, error) { return c17Render(sc, e, BuildCtx(sc.Prog.Ctx, 0)) })
+		sp.N, sp.Calls, sp.Kinds, sp.Fault, sp.FailAt = 0, map[string]int{}, nil, nil, fa
+		tsl.mt += 10
 	}
 	return e
 }
